@@ -164,7 +164,7 @@ func c14Run(c *Ctx) {
 func init() {
 	register(&CheckDef{
 		ID: "C14", Build: "light", Run: c14Run, RunCase: c14RunCase,
-		Rule: "states = the C01 state space (cost <= bound) restricted to documents whose decode target is Swagger, Operation, Parameter, Schema, Response, plus explicit states for empty/non-empty security requirements, free-form payloads with nulls and empties on every payload carrier, and references; transition = gob encode + gob decode; oracle = JSON encoding before and after are equal as JSON values; non-trivial = at least one optional member",
+		Rule:        "states = the C01 state space (cost <= bound) restricted to documents whose decode target is Swagger, Operation, Parameter, Schema, Response, plus explicit states for empty/non-empty security requirements, free-form payloads with nulls and empties on every payload carrier, and references; transition = gob encode + gob decode; oracle = JSON encoding before and after are equal as JSON values; non-trivial = at least one optional member",
 		Assumptions: []string{"the JSON encoding of a value is the observation (C14's own wording); JSON-level losses are C01's business and do not count here"},
 		MinOutcomes: 1,
 	})
